@@ -29,6 +29,8 @@ pub mod watch {
         pub started_ms: AtomicU64,
         pub fired: AtomicBool,
         pub spec: Mutex<Option<(RunSpec, Vec<Budget>)>>,
+        pub beat: AtomicU64,
+        pub in_fast: AtomicBool,
     }
 
     pub const SLOTS: usize = 256;
@@ -39,7 +41,13 @@ pub mod watch {
         static REG: std::sync::OnceLock<Vec<Slot>> = std::sync::OnceLock::new();
         REG.get_or_init(|| {
             (0..SLOTS)
-                .map(|_| Slot { started_ms: AtomicU64::new(0), fired: AtomicBool::new(false), spec: Mutex::new(None) })
+                .map(|_| Slot {
+                    started_ms: AtomicU64::new(0),
+                    fired: AtomicBool::new(false),
+                    spec: Mutex::new(None),
+                    beat: AtomicU64::new(0),
+                    in_fast: AtomicBool::new(false),
+                })
                 .collect()
         })
     }
@@ -85,6 +93,35 @@ pub mod watch {
     pub fn note_fired() {
         MY_SLOT.with(|i| slots()[*i].fired.store(true, Ordering::Relaxed));
     }
+
+    /// The consumer (or the builder caller) turns to another instance: from now on `fired`
+    /// says whether a fault of *that* instance has fired. Returns the previous value so that a
+    /// nested poll can restore it.
+    pub fn driving(fired: bool) -> bool {
+        MY_SLOT.with(|i| slots()[*i].fired.swap(fired, Ordering::Relaxed))
+    }
+
+    /// Progress counter of the builder fast path (no top-level run there to time): one tick
+    /// per chain. The watchdog reports a worker whose counter stands still while it is inside
+    /// the fast path.
+    pub fn fast_enter() {
+        MY_SLOT.with(|i| {
+            let s = &slots()[*i];
+            s.beat.fetch_add(1, Ordering::Relaxed);
+            s.in_fast.store(true, Ordering::Release);
+        });
+    }
+    pub fn fast_leave() {
+        MY_SLOT.with(|i| slots()[*i].in_fast.store(false, Ordering::Release));
+    }
+    #[inline]
+    pub fn beat() {
+        MY_SLOT.with(|i| slots()[*i].beat.fetch_add(1, Ordering::Relaxed));
+    }
+
+    /// Violations found so far by any worker, as ready-to-write replay documents: if a run that
+    /// C06 does not speak about hangs the process, they are reported before it exits.
+    pub static PENDING: Mutex<Vec<(String, String)>> = Mutex::new(Vec::new());
 }
 
 /// Budgets of one instance. They are part of what decides a run, so they travel with the spec.
@@ -336,6 +373,8 @@ pub struct InstSummary {
     pub ok_after_fire: u64,
     pub extra_none: u64,
     pub extra_some_after_done: u64,
+    /// items (Ok or Err) handed out after the solver's own error, no fault involved (not judged)
+    pub after_own_err: u64,
     pub surfaced_not_first: bool,
     pub not_in_source_chain: bool,
     pub builder_calls: u64,
@@ -343,6 +382,8 @@ pub struct InstSummary {
     pub hook_reads: u64,
     pub solver_reads: u64,
     pub builder_inverted: bool,
+    /// the built solver's own bounds were inverted (judged only together with the builder's)
+    pub solver_inverted: bool,
     /// cumulative derivative-call count after each poll (only when requested)
     pub poll_calls: Vec<u32>,
     /// 0 = Ok item, 1 = None, 2 = Err
@@ -421,7 +462,9 @@ impl StubHooks for Hooks {
             // a derivative that itself advances another solver: the neighbour is polled from
             // inside this instance's step
             if !target.done_driving.get() && !self.ctx.violated() {
+                let prev = watch::driving(!target.stub.borrow().fired.is_empty());
                 poll_once(&target, &self.ctx);
+                watch::driving(prev);
             }
         }
         fail.map(|tag| make_payload(payload, tag))
@@ -454,7 +497,14 @@ struct Oracle {
     items: Vec<ItemRec>,
     polls: u64,
     ok_items: u64,
+    /// an `Err` item has been yielded (of any kind): the consumer treats the iteration as over
     err_seen: bool,
+    /// an `Err` item has been yielded while a fault of this instance had fired: from here on
+    /// C06 demands `None` for ever. An `Err` of the solver itself with no fault fired (which
+    /// C06 does not speak about) sets `err_seen` only.
+    user_err_seen: bool,
+    /// items handed out after the solver's own error with no fault involved (counted only)
+    after_own_err: u64,
     done_seen: bool,
     ended_by: Option<EndedBy>,
     polls_after_end: u64,
@@ -484,13 +534,17 @@ fn judge_err(rt: &InstRt, ctx: &Ctx, e: &bacon_sci::ivp::IVPError, o: &mut Oracl
     let tags = found.all_tags();
     let fired: Vec<u64> = rt.stub.borrow().fired.clone();
     let foreign: Vec<u64> = tags.iter().copied().filter(|t| tag_inst(*t) != rt.idx).collect();
-    if o.err_seen {
+    if o.user_err_seen {
         ctx.violate(
             "second-err",
             rt.idx,
-            format!("a second Err item ({}) was yielded after the iterator had already yielded an Err", class.name()),
+            format!("a second Err item ({}) was yielded after the iterator had already yielded the Err of a failing derivative call", class.name()),
         );
         return PollRet::Err(class, tags);
+    }
+    if o.err_seen {
+        // an earlier Err was the solver's own, with no fault fired: what follows it is outside C06
+        o.after_own_err += 1;
     }
     o.err_seen = true;
     if !foreign.is_empty() {
@@ -502,10 +556,13 @@ fn judge_err(rt: &InstRt, ctx: &Ctx, e: &bacon_sci::ivp::IVPError, o: &mut Oracl
         return PollRet::Err(class, tags);
     }
     if fired.is_empty() {
-        // the solver's own error; C06 says nothing about it
-        o.ended_by = Some(EndedBy::SolverErr(class));
+        // the solver's own error; C06 says nothing about it, nor about what follows it
+        if o.ended_by.is_none() {
+            o.ended_by = Some(EndedBy::SolverErr(class));
+        }
         return PollRet::Err(class, tags);
     }
+    o.user_err_seen = true;
     // "carrying that error": the Err item is the UserError variant and the boxed error it holds
     // is the very object the derivative returned (any of the failing calls made so far)
     let direct = match e {
@@ -586,12 +643,14 @@ fn judge_err(rt: &InstRt, ctx: &Ctx, e: &bacon_sci::ivp::IVPError, o: &mut Oracl
 }
 
 fn judge_ok(rt: &InstRt, ctx: &Ctx, o: &mut Oracle) {
-    if o.err_seen {
+    if o.user_err_seen {
         ctx.violate(
             "item-after-err",
             rt.idx,
-            "an Ok item was yielded after the iterator had yielded an Err".to_string(),
+            "an Ok item was yielded after the iterator had yielded the Err of a failing derivative call".to_string(),
         );
+    } else if o.err_seen {
+        o.after_own_err += 1;
     }
     o.ok_items += 1;
     if o.done_seen {
@@ -603,7 +662,7 @@ fn judge_ok(rt: &InstRt, ctx: &Ctx, o: &mut Oracle) {
 }
 
 fn judge_none(rt: &InstRt, ctx: &Ctx, o: &mut Oracle) {
-    if !o.err_seen && !rt.stub.borrow().fired.is_empty() {
+    if !o.user_err_seen && !rt.stub.borrow().fired.is_empty() {
         let s = rt.stub.borrow();
         ctx.violate(
             "not-surfaced",
@@ -624,7 +683,7 @@ fn judge_none(rt: &InstRt, ctx: &Ctx, o: &mut Oracle) {
 fn handle_panic(rt: &InstRt, ctx: &Ctx, o: &mut Oracle, p: Box<dyn std::any::Any + Send>) -> PollRet {
     let fired = !rt.stub.borrow().fired.is_empty();
     if p.downcast_ref::<HarnessAbort>().is_some() {
-        if fired && !o.err_seen {
+        if fired && !o.user_err_seen {
             ctx.violate(
                 "not-surfaced",
                 rt.idx,
@@ -634,7 +693,7 @@ fn handle_panic(rt: &InstRt, ctx: &Ctx, o: &mut Oracle, p: Box<dyn std::any::Any
                     rt.stub.borrow().max_calls
                 ),
             );
-        } else if o.err_seen {
+        } else if o.user_err_seen {
             ctx.violate(
                 "item-after-err",
                 rt.idx,
@@ -650,19 +709,19 @@ fn handle_panic(rt: &InstRt, ctx: &Ctx, o: &mut Oracle, p: Box<dyn std::any::Any
         return PollRet::Abort;
     }
     let msg = panic_msg(&p);
-    if fired && !o.err_seen {
+    if fired && !o.user_err_seen {
         ctx.violate(
             "panic",
             rt.idx,
             format!("the derivative returned Err and the solver panicked instead of yielding it: {}", msg),
         );
-    } else if o.err_seen {
+    } else if o.user_err_seen {
         ctx.violate(
             "panic",
             rt.idx,
             format!("next() panicked after the iterator had yielded an Err: {}", msg),
         );
-    } else if o.done_seen {
+    } else if o.done_seen && !o.err_seen {
         // "repeated next() calls after completion": what they return is not judged, but a
         // caller polling a finished iterator again must not be brought down
         ctx.violate(
@@ -686,7 +745,7 @@ fn update_driving(rt: &InstRt, ctx: &Ctx, o: &mut Oracle) {
     }
     if o.polls >= rt.max_polls && !rt.done_driving.get() {
         let s = rt.stub.borrow();
-        if !s.fired.is_empty() && !o.err_seen {
+        if !s.fired.is_empty() && !o.user_err_seen {
             // F2-budget: the faulty run is identical to the reference run up to the failing
             // call, so it may not need more polls than the reference run plus the slack
             ctx.violate(
@@ -782,12 +841,14 @@ fn collect_once(rt: &Rc<InstRt>, ctx: &Rc<Ctx>, consume: bool) {
     let mut o = rt.o.borrow_mut();
     let (ok_items, ret) = match r {
         Ok(Ok(n)) => {
-            if o.err_seen && n > 0 {
+            if o.user_err_seen && n > 0 {
                 ctx.violate(
                     "item-after-err",
                     rt.idx,
-                    format!("{} returned {} further Ok item(s) from an iterator that had already yielded an Err", mode, n),
+                    format!("{} returned {} further Ok item(s) from an iterator that had already yielded the Err of a failing derivative call", mode, n),
                 );
+            } else if o.err_seen {
+                o.after_own_err += n as u64;
             }
             if o.done_seen && n > 0 {
                 o.extra_some_after_done += n as u64;
@@ -998,12 +1059,14 @@ fn finish_once(rt: &Rc<InstRt>, ctx: &Rc<Ctx>, last: bool) {
     } else {
         match catch_unwind(AssertUnwindSafe(move || it.count_all())) {
             Ok(n) => {
-                if o.err_seen && n > 0 {
+                if o.user_err_seen && n > 0 {
                     ctx.violate(
                         "item-after-err",
                         rt.idx,
-                        format!("count() found {} further item(s) in an iterator that had already yielded an Err", n),
+                        format!("count() found {} further item(s) in an iterator that had already yielded the Err of a failing derivative call", n),
                     );
+                } else if o.err_seen {
+                    o.after_own_err += n as u64;
                 }
                 if o.done_seen && n > 0 {
                     o.extra_some_after_done += n as u64;
@@ -1126,6 +1189,9 @@ fn build_instance(
 ) -> Option<Box<dyn ErasedIter>> {
     let mut model = Model::new(spec.kind.is_euler(), spec.dim.dynamic);
     let mut builder: Option<Box<dyn ErasedBuilder>> = None;
+    // what the cfg(bacon_verif) accessor of the builder showed after the last accepted call
+    let mut builder_inverted_now = false;
+    let mut last_builder_bounds: (Option<f64>, Option<f64>) = (None, None);
     let log = |op: &BOp, outcome: Outcome, expect: Expect| {
         ctx.log.borrow_mut().push(Event::Builder { inst: idx, op: *op, outcome, expect });
     };
@@ -1175,17 +1241,28 @@ fn build_instance(
             Outcome::Ok => {
                 model.commit(op);
                 if let BOp::Solve = op {
-                    // B7: what reached the solver has minimum <= maximum
+                    // B7: "setting minimum and maximum step in either order always leaves
+                    // minimum <= maximum". Judged where the user can meet the consequence: the
+                    // setters left the builder with inverted bounds when solve() was called AND
+                    // the solver that was built has them inverted too. One of the two alone is
+                    // not a violation: a builder may reconcile its bounds as late as solve(),
+                    // and a solver may derive its working bounds from more than the two
+                    // setters (e.g. clip the maximum step to the interval).
                     if let Some((lo, hi)) = iter_out.as_ref().and_then(|it| it.dt_bounds()) {
                         summary.solver_reads += 1;
                         ctx.log.borrow_mut().push(Event::Bounds { inst: idx, min: Some(lo), max: Some(hi) });
                         if !(lo <= hi) {
+                            summary.solver_inverted = true;
+                        }
+                        if !(lo <= hi) && builder_inverted_now {
                             ctx.violate(
                                 "bounds-inverted",
                                 idx,
                                 format!(
-                                    "{}::solve built a solver whose minimum step {:?} is above its maximum step {:?}",
+                                    "{}: the setters left minimum step {:?} above maximum step {:?} and solve() built a solver with them ({:?} > {:?})",
                                     spec.kind.name(),
+                                    last_builder_bounds.0,
+                                    last_builder_bounds.1,
                                     lo,
                                     hi
                                 ),
@@ -1201,9 +1278,12 @@ fn build_instance(
                     if let Some((min, max)) = b.dt_bounds() {
                         summary.hook_reads += 1;
                         ctx.log.borrow_mut().push(Event::Bounds { inst: idx, min, max });
+                        last_builder_bounds = (min, max);
+                        builder_inverted_now = false;
                         if let (Some(lo), Some(hi)) = (min, max) {
                             if !(lo <= hi) {
                                 summary.builder_inverted = true;
+                                builder_inverted_now = true;
                             }
                         }
                     }
@@ -1233,6 +1313,7 @@ fn empty_summary() -> InstSummary {
         ok_after_fire: 0,
         extra_none: 0,
         extra_some_after_done: 0,
+        after_own_err: 0,
         surfaced_not_first: false,
         not_in_source_chain: false,
         builder_calls: 0,
@@ -1240,6 +1321,7 @@ fn empty_summary() -> InstSummary {
         hook_reads: 0,
         solver_reads: 0,
         builder_inverted: false,
+        solver_inverted: false,
         poll_calls: Vec::new(),
         poll_kinds: Vec::new(),
         call_args: Vec::new(),
@@ -1290,10 +1372,18 @@ impl<'a> RefIter<'a> {
 }
 
 /// Drive an instance through an `Iterator` adapter method (`nth(m)` with m >= 1, `count()`,
-/// `last()`) and compare with what the method's provided implementation would return over
-/// `next()`. Such methods discard items, so the online oracle cannot see an `Err` they skip;
-/// the comparison with the reference model can. Only disagreements at or after a fired fault
-/// are C06 matters.
+/// `last()`). Such methods discard items, so the online oracle cannot see an `Err` they skip; a
+/// `next()`-driven shadow run of the same instance says where the iteration ends. The adapter is
+/// judged against C06, not against the provided implementation of the method: what C06 fixes
+/// is that the item sequence is `Ok.., Err(that error)` and then nothing, so
+///  * an `Err` an adapter does hand out is judged like any other (`judge_err`): it may come
+///    early (an `nth` that refuses to skip over a failure), it must be that error, once;
+///  * an `Ok` item that lies behind the position of the `Err` in the shadow means the iteration
+///    went on after the failure (class `item-after-err`); `count()` finding more items than the
+///    shadow has means the same;
+///  * `nth(m)` returning `None`, or `last()` returning anything else, where the element the
+///    method is specified to return is that `Err`, loses the error (class `not-surfaced`).
+/// Any other disagreement with the provided implementation is outside C06: counted, not judged.
 fn adapter_once(rt: &Rc<InstRt>, ctx: &Rc<Ctx>, drive: Drive) {
     let shadow = match rt.shadow.as_ref() {
         Some(s) => s,
@@ -1302,16 +1392,23 @@ fn adapter_once(rt: &Rc<InstRt>, ctx: &Rc<Ctx>, drive: Drive) {
             return;
         }
     };
+    // position of the Err of a failing derivative call in the shadow (the shadow run is clean, so
+    // an Err of class User there is the surfaced fault; any other Err is the solver's own)
+    let err_pos = shadow.iter().position(|x| matches!(x, ItemRec::Err(c, _) if *c == ErrClass::User));
     let mut guard = rt.iter.borrow_mut();
-    let fired_before = !rt.stub.borrow().fired.is_empty();
     let mut refit = RefIter { items: shadow, pos: rt.cursor.get() };
+    let start = refit.pos;
     let poll_no = {
         let mut o = rt.o.borrow_mut();
         o.polls += 1;
         o.polls
     };
     rt.stub.borrow_mut().cur_poll = poll_no;
-    let (expected, got_r): (ItemRec, Result<ItemRec, Box<dyn std::any::Any + Send>>) = match drive {
+    enum Got {
+        Item(Option<Item>),
+        Count(usize),
+    }
+    let (expected, got_r): (ItemRec, Result<Got, Box<dyn std::any::Any + Send>>) = match drive {
         Drive::NthSkip(m) => {
             let it = match guard.as_mut() {
                 Some(it) => it,
@@ -1319,14 +1416,7 @@ fn adapter_once(rt: &Rc<InstRt>, ctx: &Rc<Ctx>, drive: Drive) {
             };
             let exp = refit.nth(m as usize);
             let got = catch_unwind(AssertUnwindSafe(|| it.nth_m(m as usize)));
-            (exp, got.map(|g| match g {
-                Some(Item::Ok { t, .. }) => ItemRec::Ok(t.to_bits()),
-                Some(Item::Err(e)) => {
-                    let f = scan_error(&e);
-                    ItemRec::Err(ErrClass::of(&e), f.all_tags().iter().map(|t| crate::stub::tag_call(*t)).collect())
-                }
-                None => ItemRec::None,
-            }))
+            (exp, got.map(Got::Item))
         }
         Drive::Count => {
             let it = match guard.take() {
@@ -1338,7 +1428,7 @@ fn adapter_once(rt: &Rc<InstRt>, ctx: &Rc<Ctx>, drive: Drive) {
                 n += 1;
             }
             let got = catch_unwind(AssertUnwindSafe(move || it.count_all()));
-            (ItemRec::Ok(n), got.map(|c| ItemRec::Ok(c as u64)))
+            (ItemRec::Ok(n), got.map(Got::Count))
         }
         _ => {
             let it = match guard.take() {
@@ -1354,66 +1444,110 @@ fn adapter_once(rt: &Rc<InstRt>, ctx: &Rc<Ctx>, drive: Drive) {
                 last = x;
             }
             let got = catch_unwind(AssertUnwindSafe(move || it.last_item()));
-            (last, got.map(|g| match g {
-                Some(Item::Ok { t, .. }) => ItemRec::Ok(t.to_bits()),
-                Some(Item::Err(e)) => {
-                    let f = scan_error(&e);
-                    ItemRec::Err(ErrClass::of(&e), f.all_tags().iter().map(|t| crate::stub::tag_call(*t)).collect())
-                }
-                None => ItemRec::None,
-            }))
+            (last, got.map(Got::Item))
         }
     };
     drop(guard);
     rt.cursor.set(refit.pos);
-    let fired_now = !rt.stub.borrow().fired.is_empty();
+    // has the provided implementation, by now, consumed the element at which the iteration ends
+    // with the user's error?
+    let passed_err = err_pos.map(|e| refit.pos > e).unwrap_or(false);
+    let expected_is_user_err = matches!(&expected, ItemRec::Err(c, _) if *c == ErrClass::User);
     let mut o = rt.o.borrow_mut();
+    let mut stop = !matches!(drive, Drive::NthSkip(_));
     let ret = match got_r {
-        Ok(got) => {
-            let ret = match &got {
-                ItemRec::Ok(bits) => PollRet::Ok(f64::from_bits(*bits)),
-                ItemRec::Err(c, tags) => PollRet::Err(*c, tags.clone()),
-                ItemRec::None => PollRet::None,
+        Ok(Got::Count(c)) => {
+            let want = match expected {
+                ItemRec::Ok(n) => n,
+                _ => 0,
             };
-            if got != expected {
-                if fired_before || fired_now || matches!(expected, ItemRec::Err(..)) {
-                    let class = if matches!(got, ItemRec::Ok(_)) && matches!(drive, Drive::NthSkip(_)) { "item-after-err" } else { "adapter-mismatch" };
+            if (c as u64) > want && err_pos.is_some() {
+                ctx.violate(
+                    "item-after-err",
+                    rt.idx,
+                    format!(
+                        "count() found {} items where a consumer calling next() gets {} (the last of them the Err of the failing derivative call): the iteration went on after the failure",
+                        c, want
+                    ),
+                );
+            } else if c as u64 != want {
+                o.adapter_mismatch_no_fault = true;
+            }
+            o.done_seen = true;
+            if o.ended_by.is_none() {
+                o.ended_by = Some(if err_pos.is_some() { EndedBy::UserErr } else { EndedBy::Done });
+            }
+            PollRet::Ok(c as f64)
+        }
+        Ok(Got::Item(Some(Item::Err(e)))) => {
+            // handed out by the adapter: judged like any Err item (that error, first, once)
+            let r = judge_err(rt, ctx, &e, &mut o);
+            // whatever the provided implementation would still have in store, the iteration is over
+            rt.cursor.set(shadow.len().max(refit.pos));
+            r
+        }
+        Ok(Got::Item(Some(Item::Ok { t, .. }))) => {
+            let got = ItemRec::Ok(t.to_bits());
+            if o.user_err_seen || passed_err {
+                if !o.user_err_seen {
                     ctx.violate(
-                        class,
+                        "item-after-err",
                         rt.idx,
                         format!(
-                            "{} returned {:?} where a consumer calling next() gets {:?}: after the derivative failed, this way of consuming the iterator does not see the iteration end with that one Err",
-                            drive.name(), got, expected
+                            "{} returned an Ok item (t = {:?}) although a consumer calling next() has met the Err of the failing derivative call by then: the failure was skipped and the iteration went on",
+                            drive.name(), t
                         ),
                     );
                 } else {
-                    // a disagreement with no fault involved is outside C06: stop, count
+                    judge_ok(rt, ctx, &mut o);
+                }
+                stop = true;
+            } else if got != expected {
+                if expected_is_user_err && matches!(drive, Drive::Last) {
+                    ctx.violate(
+                        "not-surfaced",
+                        rt.idx,
+                        format!("last() returned an Ok item (t = {:?}) although the last item of the iteration is the Err of the failing derivative call", t),
+                    );
+                } else {
+                    // a disagreement with the provided implementation before any failure is
+                    // involved: outside C06
                     o.adapter_mismatch_no_fault = true;
                 }
-                rt.done_driving.set(true);
+                stop = true;
+            } else {
+                o.ok_items += 1;
             }
-            match got {
-                ItemRec::Ok(_) if matches!(drive, Drive::NthSkip(_)) => o.ok_items += 1,
-                ItemRec::Err(..) => {
-                    o.err_seen = true;
-                    if o.ended_by.is_none() {
-                        o.ended_by = Some(if fired_now { EndedBy::UserErr } else { EndedBy::Done });
-                    }
-                }
-                ItemRec::None => {
-                    o.done_seen = true;
-                    if o.ended_by.is_none() {
-                        o.ended_by = Some(EndedBy::Done);
-                    }
-                }
-                _ => {}
-            }
-            ret
+            PollRet::Ok(t)
         }
-        Err(p) => handle_panic(rt, ctx, &mut o, p),
+        Ok(Got::Item(None)) => {
+            if expected_is_user_err && !o.user_err_seen {
+                ctx.violate(
+                    "not-surfaced",
+                    rt.idx,
+                    format!(
+                        "{} returned None where the element it is specified to return is the Err of the failing derivative call (positions {}..{} of the iteration)",
+                        drive.name(), start, refit.pos
+                    ),
+                );
+                stop = true;
+            } else if expected != ItemRec::None && !passed_err && !o.user_err_seen {
+                o.adapter_mismatch_no_fault = true;
+                stop = true;
+            }
+            o.done_seen = true;
+            if o.ended_by.is_none() {
+                o.ended_by = Some(if passed_err { EndedBy::UserErr } else { EndedBy::Done });
+            }
+            PollRet::None
+        }
+        Err(p) => {
+            stop = true;
+            handle_panic(rt, ctx, &mut o, p)
+        }
     };
     let ended = o.err_seen || o.done_seen;
-    if !matches!(drive, Drive::NthSkip(_)) {
+    if stop {
         rt.done_driving.set(true);
     } else if ended {
         o.polls_after_end += 1;
@@ -1430,6 +1564,7 @@ fn adapter_once(rt: &Rc<InstRt>, ctx: &Rc<Ctx>, drive: Drive) {
 
 /// One action of the simulated consumer on one instance.
 fn drive_once(rt: &Rc<InstRt>, ctx: &Rc<Ctx>, drive: Drive) {
+    watch::driving(!rt.stub.borrow().fired.is_empty());
     match drive {
         Drive::Poll => poll_once(rt, ctx),
         Drive::CollectVec => collect_once(rt, ctx, true),
@@ -1583,6 +1718,7 @@ fn execute_inner(spec: &RunSpec, budgets: &[Budget], opts: &ExecOpts) -> RunResu
         let iter = if ctx.violated() {
             None
         } else {
+            watch::driving(false);
             build_instance(i as u32, ispec, hooks, &ctx, &mut summaries[i])
         };
         summaries[i].built = iter.is_some();
@@ -1666,6 +1802,7 @@ fn execute_inner(spec: &RunSpec, budgets: &[Budget], opts: &ExecOpts) -> RunResu
         sm.ok_after_fire = o.ok_after_fire;
         sm.extra_none = o.extra_none;
         sm.extra_some_after_done = o.extra_some_after_done;
+        sm.after_own_err = o.after_own_err;
         sm.surfaced_not_first = o.surfaced_not_first;
         sm.not_in_source_chain = o.not_in_source_chain;
         sm.poll_calls = o.poll_calls.clone();
